@@ -83,7 +83,11 @@ func genAction(r *gen.R) string {
 	case k < 42:
 		return act("new", e(r.Pick([]string{"x.y", "bad..rid", "", "?q=1", "a.b?x=1"})))
 	case k < 49:
-		return act("timeout", r.Pick([]string{"0", "100", "4500", "-1", "3000000"}))
+		if r.Chance(1, 3) {
+			// a duration that is not a whole number of milliseconds: the pre-response announces whole milliseconds
+			return act("timeoutus", r.Pick([]string{"1500", "666666", "999", "2500001", "1", "100000", "-1"}))
+		}
+		return act("timeout", r.Pick([]string{"0", "100", "4500", "-1", "3000000", "1200000"}))
 	case k < 56:
 		n := r.Intn(3)
 		args := []string{}
@@ -369,6 +373,9 @@ func runScript(r *res.Request, acts []string) {
 		case "timeout":
 			ms, _ := strconv.Atoi(f[1])
 			r.Timeout(time.Duration(ms) * time.Millisecond)
+		case "timeoutus":
+			us, _ := strconv.Atoi(f[1])
+			r.Timeout(time.Duration(us) * time.Microsecond)
 		case "change":
 			m := map[string]interface{}{}
 			for i := 1; i+1 < len(f); i += 2 {
